@@ -340,6 +340,27 @@ def check(case):
     want_rec = [resolve(e[2], None) for e in want_events if e[0] == 'callFunction' and e[1] == 'REC']
     if not same_value(rec_calls, want_rec):
         raise Violation(d + 'REC received %r, expected %r' % (rec_calls, want_rec), enc(rec_calls), enc(want_rec))
+    # second phase: every listener unsubscribed, the same formula once more on the same parser: nobody is called, cells and ranges are blank
+    for kind in KINDS:
+        P.off(kind)
+    none = dict((k, []) for k in KINDS)
+    try:
+        want_events2, want2 = expected(tree, none)
+    except Unspecified:
+        return
+    del log[:]
+    del rec_calls[:]
+    r2 = P.parse(text)
+    d2 = '%s evaluated again after all listeners (%r) were unsubscribed: ' % (text, dict((k, len(v)) for k, v in L.items()))
+    if log:
+        raise Violation(d2 + 'unsubscribed listeners were still called: %r' % (log[:6],), enc(log[:6]), [])
+    if isinstance(want2, Err):
+        if r2['error'] != want2.code:
+            raise Violation(d2 + '-> %r, expected %s' % (r2['error'] or r2['result'], want2.code), r2['error'] or enc(r2['result']), want2.code)
+        return
+    want2 = resolve(want2, None)
+    if r2['error'] is not None or not same_value(r2['result'], want2):
+        raise Violation(d2 + '-> %r, expected %r (references without a listener are blank)' % (r2['error'] or r2['result'], want2), r2['error'] or enc(r2['result']), enc(want2))
 
 
 def classes(case):
@@ -411,7 +432,7 @@ LAWS = [
         nontrivial=lambda c: bool(set(classes(c)) & set(['events>=3-of-2-kinds', 'range-reversed'])) or any(x.startswith('falsy-final') for x in classes(c)),
         rule='generated tree of cell / range / variable references, recording and built-in calls (incl. a host function and an aggregate that report an error by raising it), array literals and = comparisons; 0-3 listeners per event kind, each handing 0-3 values (None, a tag derived from the reference, or a constant incl. 0, FALSE, "", a list) to the setter, or running a complete evaluation on the same parser in between; per kind optionally one more listener, subscribed first, that leaves during the first delivery it sees (once, or unsubscribing itself): '
              'the listener call log equals the post-order walk (each listener once per event, subscription order) with canonical payloads (upper-cased label, zero-based row/column, markers; normalised range corners whose labels re-parse to their coordinates); '
-             'call arguments and the formula value follow the "last non-None value wins, else blank / registered value" rule; non-trivial = at least 3 events of 2 kinds, a range with unordered corners, or a falsy final setter value'),
+             'call arguments and the formula value follow the "last non-None value wins, else blank / registered value" rule; after that every listener is unsubscribed and the formula evaluated once more: nobody is called and references are blank; non-trivial = at least 3 events of 2 kinds, a range with unordered corners, or a falsy final setter value'),
 ]
 
 LEVEL_TEXT = 'Hypothesis exploration with recording listeners: the complete listener call log (order, multiplicity, payloads) and the data flow of setter values are compared with a post-order reference walk of the generating tree, over labels of every case / marker pattern / column width and all corner orders.'
